@@ -15,6 +15,8 @@ def declare(c):
     c.rule('C02.R3', 'with exclusion disabled no region test succeeds', floor=1)
     c.rule('C02.R4', 'the induction relies on the tracked position being the file position: every move with an X/Y/Z word '
                      'advances the tracked axis and is tested against the regions before it is forwarded', floor=50)
+    c.rule('C02.R5', '"inside a region" is asked about the destination itself: the region test receives the exact native '
+                     'coordinates of the point (no rounding or adjustment that could move a point across a border)', floor=8)
 
 
 def in_inv_pre(f):
@@ -90,6 +92,9 @@ def run(ctx, tier):
             gcodes.append(g)
     run_path_rules(ctx, __name__, 'path_rules', gcodes, unroll=2 if tier == 'thorough' else 1,
                    debug_logging=(tier == 'thorough'))
+    from .entries import make_interp
+    from .rules_c08 import native_args_rule
+    native_args_rule(ctx, make_interp(ctx.model), 'C02.R5', 'C02.R5')
     ctx.assume('"destination inside a region" is the abstract outcome of Region.containsPoint (geometry: C17; '
                'position conversion: C08)')
     ctx.assume('both values of g90InfluencesExtruder are covered: the setting is a free boolean of the initial state')
